@@ -9,7 +9,7 @@ ENGINE = "E1 product enumerator"
 TECHNIQUE = ("bounded-exhaustive enumeration of the recursive type grammar to depth 2 (thorough 4) x 3 spacings, and of all size / array / "
              "two-word forms, x column position x following option, against a space-insensitive type model and a neighbour frame check")
 LEVEL_TEXT = ("Every type of the grammar T ::= INT | STRING | ARRAY<T> | MAP<STRING,T> | STRUCT<a:T> | STRUCT<a:T,b:T> up to depth 2 "
-              "(thorough: 4, plus STRUCTs with both fields nested / three fields, MAPs with an INT key and BigQuery 'name TYPE' fields), in 3 spacings, and 22 sized / array-suffixed / two-word forms, placed as first / middle / last column with "
+              "(thorough: 4, plus STRUCTs with both fields nested / three fields, MAPs with an INT key and BigQuery 'name TYPE' fields), in 5 spacings, and 22 sized / array-suffixed / two-word forms, placed as first / middle / last column with "
               "each of 4 following options, is parsed by the real library: the reported type must equal the written one modulo white "
               "space with balanced brackets, the size must be the written one, the option must survive and both neighbours must be "
               "exactly what they are next to a plain type."
@@ -25,7 +25,9 @@ ASSUMPTIONS = ["type text is compared modulo white space (the property says 'one
 OPTS = ["", " NOT NULL", " DEFAULT 1", " COMMENT 'c'", " NOT NULL DEFAULT 1", " DEFAULT 1 NOT NULL COMMENT 'c'"]
 # statements put before the table (the last one a supported table whose own type leaves '<' / '>' bookkeeping behind)
 CTX = ["", "SELECT a FROM t0 WHERE a > 5;\n", "SELECT a FROM t0 WHERE a < 5;\n", "CREATE TABLE p (m MAP<STRING,ARRAY<INT>>, n int);\n",
-       "CREATE TABLE p (k int CHECK (k > 0), n int);\n", "CREATE TABLE p (k int, n int);\nALTER TABLE p ADD CONSTRAINT ck CHECK (k < 9);\n"]
+       "CREATE TABLE p (k int CHECK (k > 0), n int);\n", "CREATE TABLE p (k int, n int);\nALTER TABLE p ADD CONSTRAINT ck CHECK (k < 9);\n",
+       # unsupported statements with a bare CHECK (no parenthesised clause), and a comment line holding a lone apostrophe
+       "ALTER TABLE p0 CHECK CONSTRAINT fk;\n", "CREATE VIEW v AS SELECT 1 WITH CHECK OPTION;\n", "-- the customer's balance\n"]
 PAIR = [("decimal(10,2)", "decimal", [10, 2]), ("varchar(5)[]", "varchar[]", 5), ("MAP<STRING,INT>", "MAP<STRING,INT>", None),
         ("ARRAY<STRUCT<a:INT,b:STRING>>", "ARRAY<STRUCT<a:INT,b:STRING>>", None), ("STRUCT<a:ARRAY<INT>,b:STRING>", "STRUCT<a:ARRAY<INT>,b:STRING>", None),
         ("number(*,2)", "number", ["*", 2])]
@@ -88,11 +90,15 @@ def spacing(t, mode):
         return t
     if mode == "comma":
         return t.replace(",", ", ")
+    if mode in ("kwsp", "kwsp+comma"):
+        # a blank between a type keyword and its '<' only (closing brackets stay glued): ARRAY <MAP <STRING, ARRAY <INT>>>
+        t = re.sub(r"(\w)<", r"\1 <", t)
+        return t.replace(",", ", ") if mode == "kwsp+comma" else t
     return t.replace("<", " < ").replace(">", " > ").replace(",", " , ").replace("  ", " ").strip()
 
 
 def bounds(tier):
-    return {"nesting_depth": 4 if tier == "thorough" else 2, "spacings": 3, "positions": 3, "options": len(OPTS), "sized_forms": len(SIZED)}
+    return {"nesting_depth": 4 if tier == "thorough" else 2, "spacings": 5, "positions": 3, "options": len(OPTS), "sized_forms": len(SIZED)}
 
 
 def gen_cases(tier):
@@ -108,7 +114,7 @@ def gen_cases(tier):
         if t in seen:
             continue
         seen.add(t)
-        for sp in ("none", "comma", "all"):
+        for sp in ("none", "comma", "all", "kwsp", "kwsp+comma"):
             for pos in range(3):
                 for oi in range(len(OPTS)):
                     cases.append({"kind": "angle", "type": t, "sp": sp, "pos": pos, "opt": oi})
@@ -118,7 +124,7 @@ def gen_cases(tier):
                 cases.append({"kind": "sized", "si": si, "pos": pos, "opt": oi})
     # the same table as a later statement of a script: after an unsupported statement with a lone '>' / '<', after a nested-type table
     for c in list(cases):
-        if c["pos"] == 1 and c["opt"] in (0, 1):
+        if c["pos"] == 1 and c["opt"] in (0, 1, 3):
             for ci in range(1, len(CTX)):
                 cases.append(dict(c, ctx=ci))
     # two parameterised types side by side
@@ -177,7 +183,7 @@ def evaluate(case):
     if r[0] != "ok":
         return {"diffs": [diff("run", "raises:" + r[1], "result", r[2])], "outcome": "exc"}
     res = r[1]
-    ntab = 2 if case.get("ctx", 0) >= 3 else 1
+    ntab = 2 if 3 <= case.get("ctx", 0) <= 5 else 1
     if len(res) != ntab or not all(is_table(e) for e in res):
         return {"diffs": [diff("result", "table-missing", "%d table(s)" % ntab, short(res, 160))], "nontrivial": True, "outcome": "missing"}
     cs = res[-1]["columns"]
